@@ -277,6 +277,7 @@ async fn target_conn(mut s: TcpStream, scripts: Scripts, obs: ObsMap) {
 /// what a slow UDP client needs of the world (so that it can run as a task beside the other cases)
 #[derive(Clone)]
 struct SlowCtx {
+    uds: PathBuf,
     tcp_port: u16,
     scripts: Scripts,
     obs: ObsMap,
@@ -361,17 +362,26 @@ async fn slow_udp(cx: SlowCtx, entry: u64, n: u64, gap_ms: u64, tag: u32) -> Vec
 /// receive buffer, through the fixed TCP remote) reads nothing for 6 s, then reads to the end.  The receive window of
 /// the tunnelled stream closes meanwhile (back-pressure reaches the target); every byte must arrive, in order.
 /// result: l_len l_ok l_end t_len t_ok t_end
-async fn stalled_reader(cx: SlowCtx, n: u64, tag: u32) -> Vec<u64> {
-    let total = n as usize * 2048;
-    cx.scripts.lock().unwrap().insert(tag, TScript { shape: 11, total_local: 0, t_chunks: vec![2048; n as usize] });
+async fn stalled_reader(cx: SlowCtx, entry: u64, n: u64, tag: u32) -> Vec<u64> {
+    // entry 1: through the Unix-socket remote (small, fixed socket buffers: the bridge's writes towards the local client
+    // are accepted in part only) with chunks of 512 KiB (frames larger than the socket buffer takes at once) and a stall of 2 s; otherwise the TCP remote, 2 KiB, 6 s
+    let chunk = if entry == 1 { 524_288usize } else { 2048 };
+    let total = n as usize * chunk;
+    cx.scripts.lock().unwrap().insert(tag, TScript { shape: 11, total_local: 0, t_chunks: vec![chunk; n as usize] });
     let expect = stream_bytes(tag, 1, total);
-    let sock = tokio::net::TcpSocket::new_v4().unwrap();
-    let _ = sock.set_recv_buffer_size(4096);
-    let Ok(Ok(mut s)) = tokio::time::timeout(TMO, sock.connect(([127, 0, 0, 1], cx.tcp_port).into())).await else {
-        return vec![0, 0, 9, 0, 0, 9];
+    let mut s: Box<dyn Io> = if entry == 1 {
+        let Ok(Ok(s)) = tokio::time::timeout(TMO, UnixStream::connect(&cx.uds)).await else { return vec![0, 0, 9, 0, 0, 9] };
+        Box::new(s)
+    } else {
+        let sock = tokio::net::TcpSocket::new_v4().unwrap();
+        let _ = sock.set_recv_buffer_size(4096);
+        let Ok(Ok(s)) = tokio::time::timeout(TMO, sock.connect(([127, 0, 0, 1], cx.tcp_port).into())).await else {
+            return vec![0, 0, 9, 0, 0, 9];
+        };
+        Box::new(s)
     };
     let _ = s.write_all(&tag.to_be_bytes()).await;
-    tokio::time::sleep(Duration::from_secs(6)).await;
+    tokio::time::sleep(Duration::from_secs(if entry == 1 { 2 } else { 6 })).await;
     let l = read_all(&mut s, &expect).await;
     drop(s);
     let mut t = None;
@@ -1128,7 +1138,7 @@ impl World {
     }
 
     fn slow_ctx(&self) -> SlowCtx {
-        SlowCtx { tcp_port: self.tcp_port, scripts: self.scripts.clone(), obs: self.obs.clone(), udp_port: self.udp_port, socks_port: self.socks_port, target_udp: self.target_udp, udp_seen: self.udp_seen.clone() }
+        SlowCtx { uds: self.uds.clone(), tcp_port: self.tcp_port, scripts: self.scripts.clone(), obs: self.obs.clone(), udp_port: self.udp_port, socks_port: self.socks_port, target_udp: self.target_udp, udp_seen: self.udp_seen.clone() }
     }
 
     pub fn run_case(&self, c: &[u64]) -> Vec<u64> {
@@ -1146,7 +1156,7 @@ impl World {
         match c.first() {
             Some(3) if c.len() == 4 => self.rt.block_on(slow_udp(self.slow_ctx(), c[1], c[2], c[3], base)),
             Some(4) if c.len() == 3 => self.rt.block_on(burst_udp(self.slow_ctx(), c[1], c[2], base)),
-            Some(5) if c.len() == 3 && c[2] <= 20_000 => self.rt.block_on(stalled_reader(self.slow_ctx(), c[2], base)),
+            Some(5) if c.len() == 3 && c[2] <= 20_000 => self.rt.block_on(stalled_reader(self.slow_ctx(), c[1], c[2], base)),
             Some(1) if c.len() >= 4 => self.rt.block_on(self.tcp_case(&c[1..], base)),
             Some(2) if c.len() >= 5 => self.rt.block_on(self.udp_case(&c[1..], base)),
             _ => vec![999_999],
@@ -1188,7 +1198,9 @@ pub fn generate(a: &Args, out: &mut Out) {
             slow.push((vec![1u64, 3, entry, n, gap], w.rt.spawn(slow_udp(cx, entry, n, gap, 0x0300_0000 + k as u32))));
         }
         // a long stream of small chunks towards a local client that does not read for a while
-        slow.push((vec![1u64, 5, 0, 5000], w.rt.spawn(stalled_reader(w.slow_ctx(), 5000, 0x0300_0010))));
+        slow.push((vec![1u64, 5, 0, 5000], w.rt.spawn(stalled_reader(w.slow_ctx(), 0, 5000, 0x0300_0010))));
+        // the same through the Unix-socket remote (its small socket buffers make the bridge's writes partial)
+        slow.push((vec![1u64, 5, 1, 12], w.rt.spawn(stalled_reader(w.slow_ctx(), 1, 12, 0x0300_0011))));
     }
     // one case per (entry, shape) first
     if !a.mode.contains("random-only") {
